@@ -440,8 +440,8 @@ impl Scenario for StructScenario {
     }
     fn cases(&self, tier: Tier) -> u64 {
         match tier {
-            Tier::Quick => 30_000,
-            Tier::Thorough => 500_000,
+            Tier::Quick => 300_000,
+            Tier::Thorough => 5_000_000,
         }
     }
     fn run_case(&self, case_seed: u64, tier: Tier) -> CaseRecord {
